@@ -543,7 +543,8 @@ def third_text() -> str:
     attribute of integer types (which does not describe the encoding), zero-padded decimal literals, a comparison list with
     two comparisons on one parameter (a range, and a contradiction), time encodings with scale and offset together, context
     calibrators whose contexts have different numbers of comparisons, a spline with a step up and a step down, the optional
-    AncillaryDataSet in front of a calibrator, a little-endian termination character, and indentation."""
+    AncillaryDataSet in front of a calibrator, a little-endian termination character, an abstract container that nothing
+    inherits from, and indentation."""
     hdr_types = "\n".join(f'''      <xtce:IntegerParameterType name="{n}_T" signed="false">
         <xtce:UnitSet/>
         <xtce:IntegerDataEncoding sizeInBits="{w}" encoding="unsigned"/>
@@ -556,10 +557,11 @@ def third_text() -> str:
         <xtce:IntegerDataEncoding sizeInBits="8" encoding="unsigned"/>
       </xtce:IntegerParameterType>'''
 
-    def child(name, comparisons, entries):
+    def child(name, comparisons, entries, abstract=None):
         cmp_ = "\n".join(f'              <xtce:Comparison parameterRef="{p}" comparisonOperator="{op}" value="{v}"/>' for p, op, v in comparisons)
         ent = "\n".join(f'          <xtce:ParameterRefEntry parameterRef="{e}"/>' for e in entries)
-        return f'''      <xtce:SequenceContainer name="{name}">
+        abs_ = f' abstract="{abstract}"' if abstract else ""
+        return f'''      <xtce:SequenceContainer name="{name}"{abs_}>
         <xtce:EntryList>
 {ent}
         </xtce:EntryList>
@@ -693,9 +695,10 @@ def third_text() -> str:
         </xtce:EntryList>
       </xtce:SequenceContainer>
 {child("RANGE_A", [("PKT_APID", "&gt;=", "100"), ("PKT_APID", "&lt;", "200")], ["T_ABS", "T_REL", "SU", "US"])}
-{child("RANGE_B", [("PKT_APID", "&gt;=", "200"), ("PKT_APID", "&lt;", "300")], ["CC", "SP", "STR"])}
+{child("RANGE_B", [("PKT_APID", "geq", "200"), ("PKT_APID", "lt", "300")], ["CC", "SP", "STR"])}
 {child("NEVER", [("ID", "==", "1"), ("PKT_APID", "&gt;=", "300"), ("ID", "==", "2")], ["X8"])}
 {child("TEN", [("PKT_APID", "&gt;=", "0300"), ("ID", "==", "010")], ["Y8"])}
+{child("FAMILY", [("PKT_APID", "==", "77")], ["X8"], abstract="true")}
     </xtce:ContainerSet>
   </xtce:TelemetryMetaData>
 </xtce:SpaceSystem>
